@@ -1,7 +1,9 @@
 """C09 — one-way delivery is atomic under a crash: the ORDER of requests for the local and pull directions, from MIR.
 Kill points themselves are not explored; what is decided is the shape the argument rests on: bytes reach a destination
 path only through a rename of its `.copia-tmp` sibling, requested only after the copy / remote stream succeeded, and
-removals of stale files come after every delivery.  The push direction (a remote shell command) is NOT covered."""
+removals of stale files come after every delivery.  Push: the remote command line is decided as TEXT (obligations/shellcmd.py):
+for every remote path it is `cat > $'T' && mv -f $'T' $'D'[ && touch ..]` with T = D + ".copia-tmp" - the destination name
+appears only as the target of a `mv` conditioned on `cat` having exited 0.  What the remote shell then does is its contract."""
 from mirsmt.env import Inconclusive
 from mirsmt.symexec import Unsupported
 from mirsmt.prove import Prover
@@ -14,7 +16,8 @@ def run(R, tier, seed):
                   "native oracle: the real copia binary under strace"]
     R.assumptions += ["kill points are NOT explored: atomicity of rename(2) is the kernel's; a killed process leaves at worst a `.copia-tmp` staging file (a reserved name) — "
                       "ARGUED from the decided order, not decided",
-                      "local and pull directions only; push (`cat > tmp && mv -f tmp dst` run by a remote shell) is NOT covered; the pull transport is decided with the ssh child, its pipe and "
+                      "push: only the command line handed to ssh is decided (as text, remote path of 0..2/3 characters, any code points) together with the streaming loop; the remote shell "
+                      "executing `cat > T && mv -f T D` (mv only after cat exited 0; bash's reading of $'..') is a CONTRACT, validated natively through the stand-in for ssh; the pull transport is decided with the ssh child, its pipe and "
                       "exit status as arbitrary inputs, and validated natively through a two-line local stand-in for ssh (no sshd in the sandbox)",
                       "one schedule (futures complete at their await)"]
     ctx = c04.Ctx()
@@ -45,6 +48,7 @@ def run(R, tier, seed):
             R.add("C09/native-pull", "holds", queries=0, solver_s=0.0, detail=w["detail"] + " (validation, not the deciding step)")
     except Exception as e:  # noqa: BLE001
         R.add("C09/native-pull", "inconclusive", detail=str(e)[:300])
+    c04.remote_commands(R, tier, "C09", ("push",))
     o = c04.order_witness(R, "C09")
     if o["confirmed"]:
         R.add("C09/native-order", "violated", confirmed=True, replay_path=o["replay_path"], key=o["key"], detail=o["detail"])
